@@ -25,6 +25,7 @@ BASES = {
     "no_dunders": base([("x", "none"), ("ys", "seq")], body=["x"], o=opts(init=False, repr=False, eq=False)),
     "no_init": base([("x", "none")], body=["x"], o=opts(init=False)),
     "attrs_only": base([("x", "none"), ("y", "none")], body=["x"], o=opts(attrs=["x"])),
+    "attrs_annotated_collections": base([("x", "none"), ("ys", "seq"), ("opts", "map"), ("tags", "set"), ("w", "none")], body=["x"], o=opts(attrs=["ys", "opts", "tags", "x"])),
     "attrs_typed": base([("x", "none")], body=["x"], o=opts(typed=[("zs", "seq")])),
     "attrs_skip": base([("x", "none"), ("ys", "seq")], body=["x"], o=opts(skip=["ys"], useskip=True)),
     "attrs_plus_annotations": base([("x", "none")], body=["x"], o=opts(attrs=["w"], skip=[], useskip=True)),
